@@ -771,7 +771,12 @@ pub fn gen_num(rng: &mut Rng, depth: usize, fns: &[String]) -> E {
             0..=3 => E::Num(rng.pick(&[0.0, 1.0, 2.0, 3.0, 10.0, 0.5, 7.0, 2.5])),
             4..=6 => E::Var(nvar(rng)),
             7 => E::Var(rng.pick(&["I", "J", "K"]).to_string()),
-            _ => E::Cell(rng.pick(&["P", "Q"]).to_string(), vec![E::Num(rng.pick(&[0.0, 1.0, 2.0, 10.0]))]),
+            _ => E::Cell(rng.pick(&["P", "Q"]).to_string(), vec![match rng.below(6) {
+                // a subscript is truncated towards zero before its sign is looked at: -0.5 addresses cell 0
+                0 => E::Bin("-", Box::new(E::Num(0.0)), Box::new(E::Num(rng.pick(&[0.5, 0.25, 0.99])))),
+                1 => E::Num(rng.pick(&[0.5, 1.5, 9.99, 10.5])),
+                _ => E::Num(rng.pick(&[0.0, 1.0, 2.0, 10.0])),
+            }]),
         };
     }
     match rng.below(14) {
@@ -895,9 +900,61 @@ fn gen_many_loops(rng: &mut Rng) -> (Program, Vec<&'static str>) {
     (prog, vec!["many-loops"])
 }
 
+/// an error raised two or three user-function calls deep, every DEF on its own line: the error is attributed to the
+/// line of the innermost function whose body fails
+fn gen_deep_fn_error(rng: &mut Rng) -> (Program, Vec<&'static str>) {
+    let failing = match rng.below(4) {
+        0 => E::Bin("/", Box::new(E::Num(10.0)), Box::new(E::Var("X".into()))),
+        1 => E::Cell("P".into(), vec![E::Bin("+", Box::new(E::Var("X".into())), Box::new(E::Num(11.0)))]),
+        2 => E::Bin("+", Box::new(E::Var("X".into())), Box::new(E::Str("s".into()))),
+        _ => E::Bin("/", Box::new(E::Num(1.0)), Box::new(E::Bin("-", Box::new(E::Var("X".into())), Box::new(E::Var("X".into()))))),
+    };
+    let depth = rng.range(1, 3);
+    let mut prog: Program = vec![(10, vec![S::Def("FNA".into(), vec!["X".into()], failing)])];
+    let names = ["FNA", "FNB", "FNC", "FND"];
+    for d in 1..=depth {
+        let callee = names[d - 1];
+        let body = E::Bin("+", Box::new(E::Call(callee.into(), vec![E::Var("Y".into())])), Box::new(E::Num(1.0)));
+        prog.push((10 + 10 * d as u64, vec![S::Def(names[d].into(), vec!["Y".into()], body)]));
+    }
+    prog.push((100, vec![S::Print(vec![(E::Str("before".into()), ';')], false)]));
+    let arg = rng.pick(&[0.0, 1.0, 3.0]);
+    prog.push((110, vec![S::Print(vec![(E::Call(names[depth].into(), vec![E::Num(arg)]), ';')], false)]));
+    prog.push((120, vec![S::Print(vec![(E::Str("after".into()), ';')], false)]));
+    (prog, vec!["deep-fn-error"])
+}
+
+/// STEP 0 and STEP -0 count as an upward step: the loop goes round while the variable is at most the limit, so a
+/// start above the limit leaves after one pass and a start at or below it goes round until the program jumps out
+fn gen_zero_step(rng: &mut Rng) -> (Program, Vec<&'static str>) {
+    let step = match rng.below(4) {
+        0 => E::Num(0.0),
+        1 => E::Neg(Box::new(E::Num(0.0))),
+        2 => E::Bin("*", Box::new(E::Num(0.0)), Box::new(E::Var("Z".into()))),
+        _ => E::Bin("-", Box::new(E::Num(2.0)), Box::new(E::Num(2.0))),
+    };
+    let (a, b) = rng.pick(&[(5.0, 1.0), (1.0, 5.0), (3.0, 3.0), (0.0, -1.0), (-1.0, 0.0), (2.5, 2.0)]);
+    let c = || E::Var("C".into());
+    let prog: Program = vec![
+        (10, vec![S::For("I".into(), E::Num(a), E::Num(b), Some(step))]),
+        (20, vec![S::Print(vec![(E::Var("I".into()), ';')], false), S::Let("C".into(), None, E::Bin("+", Box::new(c()), Box::new(E::Num(1.0))))]),
+        (30, vec![S::If(E::Bin(">", Box::new(c()), Box::new(E::Num(rng.pick(&[2.0, 4.0])))), Then::Line(60), None)]),
+        (40, vec![S::Next("I".into())]),
+        (50, vec![S::Print(vec![(E::Str("out".into()), ';')], false)]),
+        (60, vec![S::Print(vec![(E::Str("done".into()), ';'), (c(), ';')], false)]),
+    ];
+    (prog, vec!["zero-step"])
+}
+
 pub fn gen_program(rng: &mut Rng, allow_else_resume: bool) -> (Program, Vec<&'static str>) {
     if rng.chance(1, 25) {
         return gen_many_loops(rng);
+    }
+    if rng.chance(1, 25) {
+        return gen_zero_step(rng);
+    }
+    if rng.chance(1, 20) {
+        return gen_deep_fn_error(rng);
     }
     let mut lines: Vec<Vec<S>> = vec![];
     let mut feats: Vec<&'static str> = vec![];
@@ -950,6 +1007,7 @@ pub fn gen_program(rng: &mut Rng, allow_else_resume: bool) -> (Program, Vec<&'st
                     0 => Some(E::Num(2.0)),
                     1 => Some(E::Neg(Box::new(E::Num(1.0)))),
                     2 => Some(E::Num(0.5)),
+                    3 if rng.chance(1, 3) => Some(E::Num(0.0)),
                     _ => None,
                 };
                 // sometimes the limit / step mention the loop variable itself (fixed at entry, from its OLD value)
